@@ -252,20 +252,15 @@ Definition is_mul_level (c : binop) : bool :=
 Definition ok_unary_mul (m : minsrc) (c : binop) : bool :=
   match m with MUn _ => negb (is_mul_level c) | _ => true end.
 
-(* C06-peg-xor-right-assoc: `^` written right-associative *)
-Definition ok_xor_chain (m : minsrc) (c : binop) : bool :=
-  match m, c with MBin BitXor, BitXor => false | _, _ => true end.
-
 (* C06-rowan-no-unary-plus *)
 Definition oku_no_plus (u : unop) : bool := match u with UPlus => false | _ => true end.
 Definition oku_all (u : unop) : bool := true.
 
 (* token lists in the known classes (decidable; evaluated next to the parsers in every run) *)
 Definition known_unary_mul (ts : list tok) : bool := negb (lex_ok ok_unary_mul oku_all true ts).
-Definition known_xor_chain (ts : list tok) : bool := negb (lex_ok ok_xor_chain oku_all true ts).
 Definition known_rowan (ts : list tok) : bool := negb (lex_ok ok_unary_mul oku_no_plus true ts).
 
 (* ------------------------------------------------------------------ what a run evaluates *)
 Definition run_case (ts : list tok) :=
   (parse tbl_ref ts, parse tbl_ir ts, parse tbl_peg ts, parse tbl_rowan ts,
-   (known_unary_mul ts, known_xor_chain ts, known_rowan ts)).
+   (known_unary_mul ts, known_rowan ts)).
